@@ -569,6 +569,14 @@ func c03Scenarios(prop, tier string) []*CrashScenario {
 			}
 			scs = append(scs, &CrashScenario{Prop: prop, Name: "c03", Cfg: c, Preamble: pre, Alphabet: alpha, Depth: d, Oracles: oracles})
 		}
+		if tier == "quick" && c.IdxFS == 48 {
+			// second index-GC cycle over a file whose middle record the first
+			// cycle already marked deleted (merge of deleted spans), then a
+			// recovery by rescan: one more flushed Put makes the first record
+			// stale, so that a single IndexGC op merges
+			pre := append(append([]Op{}, gcPreambles()[preMergeDeleted]...), Op{Kind: OpPut, K: 1, V: 1}, Op{Kind: OpFlush})
+			scs = append(scs, &CrashScenario{Prop: prop, Name: "c03-merge", Cfg: c, Preamble: pre, Alphabet: alpha, Depth: 1, Oracles: oracles})
+		}
 	}
 	return scs
 }
